@@ -367,6 +367,28 @@ func NewRunner(script string) *Runner {
 		r.Trace = append(r.Trace, "trace("+strings.Join(parts, ",")+")")
 		return &object.Void{}
 	})
+	// walk(x, n): a host function that looks at its argument the way the
+	// object package invites hosts to: through the Iterable interface, for n
+	// entries (all of them when n < 0). It records nothing.
+	r.E.AddFunction("walk", func(args []object.Object) object.Object {
+		if len(args) != 2 {
+			return &object.Null{}
+		}
+		it, ok := args[0].(object.Iterable)
+		n, ok2 := args[1].(*object.Integer)
+		if !ok || !ok2 {
+			return &object.Null{}
+		}
+		it.Reset()
+		seen := int64(0)
+		for n.Value < 0 || seen < n.Value {
+			if _, _, more := it.Next(); !more {
+				break
+			}
+			seen++
+		}
+		return &object.Integer{Value: seen}
+	})
 	r.E.AddFunction("id", func(args []object.Object) object.Object {
 		if len(args) != 1 {
 			return &object.Null{}
